@@ -289,6 +289,24 @@ pub fn generate(ctx: &mut Ctx) {
     for t in ["`a\tb`", "`\u{1}`", "[`a\u{1f}b`,\"x\"]", "ver:\"3.0\"\na\n`x\ty`\n"] {
         ctx.case("z:ctrl", &format!("z {}", vx::h(t)));
     }
+    // texts nested as deep as the reader accepts, and a few levels either side, in every position a value can stand in:
+    // top level, a tag of grid meta, a tag of column meta, a cell, a cell of a grid in a cell - what is accepted must be
+    // written again and read back the same
+    for d in 56usize..=66 {
+        for (open, close, scalar) in [("[", "]", "1"), ("{a:", "}", "1"), ("[", "]", "[]"), ("[", "]", "{}")] {
+            let nest = format!("{}{scalar}{}", open.repeat(d), close.repeat(d));
+            for text in [
+                nest.clone(),
+                format!("ver:\"3.0\" m:{nest}\na\n1\n"),
+                format!("ver:\"3.0\"\na k:{nest}\n1\n"),
+                format!("ver:\"3.0\"\na\n{nest}\n"),
+                format!("ver:\"3.0\"\na\n<<\nver:\"3.0\" m:{nest}\nb\n1\n>>\n"),
+                format!("ver:\"3.0\" g:<<\nver:\"3.0\" m:{nest}\nb\n1\n>>\na\n1\n"),
+            ] {
+                ctx.case("z:edge", &format!("z {}", vx::h(&text)));
+            }
+        }
+    }
     // corpus files shipped with the repository
     for f in ["/repo/benches/zinc/points.zinc", "/repo/tests/defs/defs.zinc"] {
         if let Ok(data) = std::fs::read(f) {
